@@ -80,11 +80,40 @@ impl RealOut {
     }
 }
 
+/// A runaway child must not fill the harness's memory: stop reading (and thereby break the
+/// pipe) after this many bytes.
+pub const CAPTURE_CAP: usize = 16 << 20;
+
+fn read_capped(r: &mut impl Read) -> Vec<u8> {
+    let mut b = Vec::new();
+    let mut buf = [0u8; 65536];
+    loop {
+        match r.read(&mut buf) {
+            Ok(0) | Err(_) => break,
+            Ok(n) => {
+                b.extend_from_slice(&buf[..n]);
+                if b.len() > CAPTURE_CAP {
+                    break;
+                }
+            }
+        }
+    }
+    b
+}
+
 /// Spawn `exe args`, feed `stdin` in writes of the given sizes (cycled; empty = one write).
 pub fn run(exe: &Path, args: &[String], cwd: Option<&Path>, stdin: &[u8], chunks: &[usize], timeout: Duration) -> Result<RealOut, String> {
     let t0 = Instant::now();
-    let mut cmd = Command::new(exe);
-    cmd.args(args).stdin(Stdio::piped()).stdout(Stdio::piped()).stderr(Stdio::piped());
+    let mut cmd;
+    if std::env::var("VERIF_NO_ULIMIT").is_err() {
+        // 4 GB address-space limit: a runaway emitted program must not take the machine down
+        cmd = Command::new("/bin/sh");
+        cmd.arg("-c").arg("ulimit -v 4194304; exec \"$0\" \"$@\"").arg(exe).args(args);
+    } else {
+        cmd = Command::new(exe);
+        cmd.args(args);
+    }
+    cmd.stdin(Stdio::piped()).stdout(Stdio::piped()).stderr(Stdio::piped());
     if let Some(d) = cwd {
         cmd.current_dir(d);
     }
@@ -109,16 +138,8 @@ pub fn run(exe: &Path, args: &[String], cwd: Option<&Path>, stdin: &[u8], chunks
         }
         drop(si);
     });
-    let ot = std::thread::spawn(move || {
-        let mut b = Vec::new();
-        let _ = so.read_to_end(&mut b);
-        b
-    });
-    let et = std::thread::spawn(move || {
-        let mut b = Vec::new();
-        let _ = se.read_to_end(&mut b);
-        b
-    });
+    let ot = std::thread::spawn(move || read_capped(&mut so));
+    let et = std::thread::spawn(move || read_capped(&mut se));
     let mut timed_out = false;
     let status = loop {
         match child.try_wait() {
